@@ -98,4 +98,18 @@ example : (twoFrames.write?.bind fun b => (readBytes b none {}).bind fun r => (r
     (twoFrames.write?.bind fun b => (readBytes b none win01).map (·.1)) := by decide +kernel
 example : (twoFrames.write?.bind fun b => (readBytes b none {}).bind fun r => (readStream (b.take (b.length - 30)) r.2 win01).map (·.1.1)) = none := by decide +kernel
 
+/-! ### trailing bytes under a window -/
+
+/-- **Trailing bytes and windows.** For a file a full read accepts as v0.2 and any valid window, bytes appended after the file change nothing about the
+    pose a windowed read returns: it is the same slice of the same pose. -/
+theorem trailing_ignored_window (f extra : Bytes) (w : Window) (p : Pose) (fps : F32) (se : Option Int × Option Int)
+    (hfull : readFull f = some p) (hv02 : versionClass p.header.version = .v02) (hfps : p.body.fps = .f32 fps)
+    (hc : w.conflict = false) (hres : w.resolve fps = some se) (hvw : WinValid p.body.frames se.1 se.2) :
+    (readBytes (f ++ extra) none w).map (·.1) = (readBytes f none w).map (·.1) := by
+  obtain ⟨c1, h1⟩ := readBytes_window f w p fps se hfull hv02 hfps hc hres hvw
+  obtain ⟨c2, h2⟩ := readBytes_window (f ++ extra) w p fps se (trailing_ignored_v02 f extra p hfull hv02) hv02 hfps hc hres hvw
+  simp [h1, h2]
+
+example : (twoFrames.write?.bind fun b => (readBytes (b ++ [1, 2, 3]) none win01).map (·.1)) =
+    (twoFrames.write?.bind fun b => (readBytes b none win01).map (·.1)) := by decide +kernel
 end PoseVerif.Props.C07
